@@ -9,10 +9,10 @@ package fetcher
 
 //@ iface Service.FetchAccount(self, ctx, path)
 //@ flag noalloc
-//@ ensures result2 == nil ==> result0 != nil && result1 != nil && result1 == fetchedByName(self, path) && result0 == walletOf(result1)
+//@ ensures result2 == nil ==> result0 != nil && result1 != nil && result1 == fetchedByName(self, path) && nameOf(result0) == nameOf(walletOf(result1))
 //@ iface Service.FetchAccountByKey(self, ctx, pubKey)
 //@ flag noalloc
-//@ ensures result2 == nil ==> result0 != nil && result1 != nil && result1 == fetchedByKey(self, bytes(pubKey)) && result0 == walletOf(result1)
+//@ ensures result2 == nil ==> result0 != nil && result1 != nil && result1 == fetchedByKey(self, bytes(pubKey)) && nameOf(result0) == nameOf(walletOf(result1))
 // listing (C18): what the fetcher knows is a function of its state, read as constant during one request
 //@ spec walletFound(f any, path string) bool
 //@ spec walletFor(f any, path string) any
@@ -26,3 +26,7 @@ package fetcher
 //@ iface Service.FetchAccounts(self, ctx, path)
 //@ ensures (result1 == nil) <==> accountsFound(self, path)
 //@ ensures result1 == nil ==> result0 != nil && (forall n string :: (n in result0) <==> hasAcc(self, path, n)) && (forall n string :: n in result0 ==> result0[n] != nil && result0[n] == accNamed(self, path, n))
+// an account is added under the wallet it belongs to (by name); the two call sites (services/process/standard: generate,
+// storeDistributedKey) are assumed contracts, so this precondition is stated, not discharged
+//@ iface Service.AddAccount(self, ctx, wallet, account)
+//@ requires [ownwallet] wallet != nil && account != nil && nameOf(walletOf(account)) == nameOf(wallet)
